@@ -73,7 +73,11 @@ def run(ctx):
             if c2 is None:
                 ctx.count("sweep: normalised text not re-extracted with the canonical reporter (other shape)")
             else:
-                if not (c1 == c2 and hash(c1) == hash(c2) and Resource(c1) == Resource(c2)):
+                if not (isinstance(c1, FullCaseCitation) and isinstance(c2, FullCaseCitation)):
+                    # journal citations hash every group (raw reporter spelling included): the property's
+                    # variation clause is about case citations only
+                    ctx.count("sweep: journal variation (equality not claimed by the property)")
+                elif not (c1 == c2 and hash(c1) == hash(c2) and Resource(c1) == Resource(c2)):
                     ctx.violation(None, f"the unambiguous variation {s!r} is not equal to its canonical spelling {rep2!r}",
                                   dict(stream="sweep", text=t1, normalised=norm))
                 if c2.corrected_citation() != norm:
@@ -107,6 +111,14 @@ def run(ctx):
     pool = []
     docs = ["1 U.S. 1; 1 U. S. 1; 1 U.S. 2; 2 U.S. 1; 1 U.S. ___; 1 U.S. ___. Id. at 3. § 5. 1 U.S. at 1; Foo, 1 U. S., at 1",
             "1 Minn. L. Rev. 1; 1 Minn. L. Rev. 1; 1 Minn. L. Rev. 2; 42 U.S.C. § 1983; 42 U.S.C. § 1983; 42 U.S.C. § 1984"]
+    # same volume and page in sibling series of one reporter (F. / F.2d / F.3d, A. / A.2d ...): different documents
+    from reporters_db import REPORTERS
+    multi = sorted(k for k, v in REPORTERS.items() if any(len(r["editions"]) >= 2 for r in v))
+    sib = ["100 F. 200; 100 F.2d 200; 100 F.3d 200; 100 F. 2d 200"]
+    for root in rng.sample(multi, 8 if th else 3):
+        eds_ = [e for r in REPORTERS[root] for e in r["editions"]][:3]
+        sib.append("; ".join(f"7 {e} 9" for e in eds_))
+    docs += sib
     for _ in range(25 if th else 6):
         docs.append(textgen.document(rng, n_events=8, pool=["U.S.", "U. S.", "F.2d", "F. 2d", "S. Ct.", "S.Ct."]))
     for d in docs:
